@@ -7,7 +7,7 @@ from vstat.guards import path_conditions
 from vstat.cfg import cfg_of
 from vstat.sigs import bind
 from vstat import algebra
-from . import c10
+from . import c10, noneflow
 
 JM = "virocon.jointmodels"
 GHM = f"{JM}.GlobalHierarchicalModel"
@@ -92,6 +92,18 @@ class _Map:
         return getattr(self.rep, n)
 
 
+def _fills_none_method(prog):
+    """_check_and_fill_fit_desc tests a described method against None (then it is its business what a None becomes)"""
+    fn = prog.func(f"{GHM}._check_and_fill_fit_desc")
+    for n in ast.walk(fn.node):
+        if isinstance(n, ast.Compare) and any(isinstance(c, ast.Constant) and c.value is None for c in n.comparators) \
+                and any(isinstance(x, ast.Constant) and x.value == "method" for x in ast.walk(n.left)):
+            return True
+        if isinstance(n, ast.BoolOp) and isinstance(n.op, ast.Or) and any(isinstance(x, ast.Constant) and x.value == "method" for x in ast.walk(n.values[0])):
+            return True
+    return False
+
+
 def dims(prog, rep):
     q = f"{GHM}.fit"
     fn = prog.func(q)
@@ -139,10 +151,25 @@ def dims(prog, rep):
 
         if ("isnone", ck) in pc:
             seen["marg"] = True
-            args = positional("virocon.distributions.Distribution.fit") or args
-            ok = args == (("col", data, i), m, w) and rng_ok
-            rep.check(ok, "C09.dims", f"{q}:unconditional", site, "distributions[i].fit(data[:, i], fit_descriptions[i]['method'], fit_descriptions[i]['weights'])",
-                      f"the unconditional fit must use column i, method and weights of the SAME i for i in range(n_dim); found {[show(a)[:70] for a in args]}")
+            names_ = [p_ for p_ in prog.func("virocon.distributions.Distribution.fit").positional_params if p_ != "self"]
+            bd_ = bind(t, names_) or {}
+            m_none = ("isnone", m) in pc
+            # two call forms: with the described method, or - the description says None - without it (the distribution's own default)
+            ok = (bd_.get("data") == ("col", data, i) and bd_.get("weights") == w and rng_ok
+                  and (set(bd_) == {"data", "weights"} and m_none or set(bd_) == {"data", "method", "weights"} and bd_.get("method") == m))
+            inst = f"{q}:unconditional" + (":none-method" if m_none else "")
+            rep.check(ok, "C09.dims", inst, site, "distributions[i].fit(data[:, i], fit_descriptions[i]['method'], fit_descriptions[i]['weights'])",
+                      f"the unconditional fit must use column i, method and weights of the SAME i for i in range(n_dim); found {[show(a)[:70] for a in bd_.values()]}")
+            if "method" in bd_ and not m_none:
+                # {'method': None} is accepted for a conditional dimension (ConditionalDistribution.fit: 'defaults to the distribution's default');
+                # handed on to Distribution.fit it overrides the default 'mle' and method.lower() raises AttributeError
+                tolerant = not noneflow.derefs(prog.func("virocon.distributions.Distribution.fit").node, "method")
+                filled = _fills_none_method(prog)
+                rep.check(("not", ("isnone", m)) in pc or tolerant or filled, "C09.nonedefault", f"{q}:unconditional:described-none", site,
+                          "a described method None does not reach Distribution.fit's method.lower()",
+                          "fit(data, [{'method': None}, None]) raised AttributeError: 'NoneType' object has no attribute 'lower' while [None, {'method': None}] "
+                          "(the conditional dimension) fits with the default method: the same option is handled differently per dimension; "
+                          "call fit without the method when it is None, or fill it in _check_and_fill_fit_desc")
         elif ("not", ("isnone", ck)) in pc:
             seen["cond"] = True
             sp = ("call", ("attr", SELF, "_split_in_intervals"), (data, i, ck), ())
@@ -163,7 +190,7 @@ def dims(prog, rep):
     sp_stmt = [st for st in cfg.all_stmts() if isinstance(st, ast.Assign) and isinstance(st.value, ast.Call)
                and isinstance(st.value.func, ast.Attribute) and st.value.func.attr == "_split_in_intervals"]
     rep.check(len(sp_stmt) == 1, "C09.dims", f"{q}:split-once", fn.where(), "one split per conditional dimension", "expected exactly one _split_in_intervals call")
-    rep.check(len(fits) == 2, "C09.dims", f"{q}:fit-sites", fn.where(), "two fit sites (unconditional, conditional)", f"expected 2 fit call sites, found {len(fits)}")
+    rep.check(2 <= len(fits) <= 4, "C09.dims", f"{q}:fit-sites", fn.where(), "fit sites (unconditional, conditional; each at most in two call forms)", f"expected 2..4 fit call sites, found {len(fits)}")
 
 
 def split(prog, rep):
